@@ -6,7 +6,7 @@ import json, os, itertools, copy
 UNIT = 256
 Q = UNIT // 4
 
-ALT = ['a%d' % i for i in range(1, 10)]
+ALT = ['a%d' % i for i in range(1, 13)]
 CRIT = ['c%d' % i for i in range(1, 7)]
 
 
@@ -78,6 +78,43 @@ def drv_utility(tier, rng):
     return groups
 
 
+
+# ---------------------------------------------------------------- majority
+def heur_req(rng, method, n, m, vals, extra_known=0, types=None):
+    tab = [[UNIT * rng.choice(vals) for _ in range(m)] for _ in range(n + extra_known)]
+    types = types or ['gain' if rng.random() < 0.6 else 'cost' for _ in range(m)]
+    known = alts(tab, m)
+    chose = [a['id'] for a in known[:n]]
+    rng.shuffle(chose)
+    return {'preferenceFunction': method, 'knownAlternatives': known, 'choseToMake': chose,
+            'criteria': [crit(j, types[j]) for j in range(m)], 'methodParameters': {}, 'biases': []}
+
+
+def drv_majority(tier, rng):
+    groups = []
+    N = 300 if tier == 'quick' else 6000
+    for t in range(N):
+        n = rng.randint(1, 8)
+        m = rng.randint(1, 4)
+        extra = rng.choice([0, 0, 1, 2])
+        req = heur_req(rng, 'majorityHeuristic', n, m, [0, 1, 2] if rng.random() < 0.6 else [0, 1, 2, 3, 5, 8], extra)
+        mp = {'weights': {CRIT[j]: UNIT * rng.choice([1, 1, 2, 3]) for j in range(m)},
+              'randomSeed': rng.randint(0, 10 ** 6)}
+        pol = rng.choice(['allow', 'current', 'newer', 'random', None])
+        if pol:
+            mp['drawResolution'] = pol
+        r = rng.random()
+        if r < 0.3:
+            mp['currentChoice'] = rng.choice(req['choseToMake'])
+        elif r < 0.5 and extra:
+            mp['currentChoice'] = req['knownAlternatives'][n]['id']
+        if rng.random() < 0.3:
+            mp['randomAlternativesOrdering'] = True
+        req['methodParameters'] = mp
+        groups.append([base_case(req, exactprop='C11', refmax=5)])
+    return groups
+
+
 def nt_ties(o):
     """non-trivial for ranking shape: at least two entries and at least one tie or two levels"""
     r = o.get('resp', {}).get('result', [])
@@ -97,10 +134,26 @@ FAMILIES = {
         'trace': 'Trace_Decide',
         'drivers': [drv_utility],
     },
+    'majority': {
+        'mc': 'MC_Majority',
+        'mc_cfg': {'quick': 'MC_Majority_quick.cfg', 'thorough': 'MC_Majority_thorough.cfg'},
+        'mode': 'decide',
+        'trace': 'Trace_Decide',
+        'drivers': [drv_majority],
+    },
 }
 
+def nt_majority(o):
+    r = o.get('resp', {}).get('result', [])
+    if not isinstance(r, list) or len(r) < 3:
+        return False
+    return any(e['evaluation'].get('comparedWith') and e['evaluation']['value'] == e['evaluation']['comparedAlternativeValue'] for e in r)
+
+
 PROPS = {
-    'C01': {'families': ['utility'], 'nontrivial': nt_ties,
+    'C11': {'families': ['majority'], 'nontrivial': nt_majority,
+            'rule': 'non-trivial = accepted majority request with >= 3 ranked alternatives and at least one drawn comparison; distinct by request'},
+    'C01': {'families': ['utility', 'majority'], 'nontrivial': nt_ties,
             'rule': 'cases = TLC-enumerated instances + seeded random instances; non-trivial = accepted request whose result has >= 2 entries; distinct by request'},
     'C03': {'families': ['utility'], 'nontrivial': nt_formula,
             'rule': 'non-trivial = accepted utility request with >= 2 criteria (weights/capacities matter); distinct by request'},
